@@ -223,6 +223,11 @@ func (m *Machine) nondetIntrinsic(name string, args []Val) (Val, bool) {
 		// from here on, running more than n further instructions is a "hang"
 		m.hangLimit = m.steps + m.cInt(args[0], name)
 		return nil, true
+	case "VerifShared":
+		f := args[0]
+		m.callValue(f, []Val{goInt(0)})
+		m.callValue(f, []Val{goInt(1)})
+		return nil, true
 	case "VerifFreeze":
 		m.freeze(args[0])
 		return nil, true
